@@ -81,6 +81,13 @@ func (s *sumT) mismatch(m Mismatch) {
 	s.mu.Unlock()
 }
 
+// tooMany reports whether enough disagreements have been collected to stop the run early.
+func (s *sumT) tooMany() bool {
+	s.mu.Lock()
+	defer s.mu.Unlock()
+	return len(s.Mismatches) >= 24
+}
+
 func (s *sumT) note(f string, a ...any) {
 	s.mu.Lock()
 	if len(s.Notes) < 40 {
